@@ -60,3 +60,31 @@ Proof.
     [apply tie_constraint_eq | apply tie_constraint_leq | apply tie_constraint_geq
     | apply tie_constraint_neq | apply tie_constraint_lt | apply tie_constraint_gt].
 Qed.
+
+(* ---- C11 stated about the GENERATED violation functions (with the default delta read from the source):
+   the function produced from the source text for each operator answers 0 exactly when the relation holds,
+   a strictly positive number otherwise, and never a negative one. ---- *)
+From PV Require Import Proofs.ConstraintProofs Props.C11.
+
+Definition gen_op_fun (op : cop) (x y : Q) : Q :=
+  match op with
+  | OpEq => Core.constraint_eq Q Qops x y
+  | OpLeq => Core.constraint_leq Q Qops x y
+  | OpGeq => Core.constraint_geq Q Qops x y
+  | OpNeq => Core.constraint_neq Q Qops x y
+  | OpLt => Core.constraint_lt Q Qops x y (Core.constraint_lt_default_delta Q Qops)
+  | OpGt => Core.constraint_gt Q Qops x y (Core.constraint_gt_default_delta Q Qops)
+  end.
+
+Theorem tie_c11_generated_viol_zero_iff : forall op x y, (gen_op_fun op x y == 0)%Q <-> holds op x y.
+Proof. intros op x y. unfold gen_op_fun. rewrite <- tie_op_fun. apply c11_viol_zero_iff. Qed.
+
+Theorem tie_c11_generated_viol_pos : forall op x y, ~ holds op x y -> (0 < gen_op_fun op x y)%Q.
+Proof. intros op x y H. unfold gen_op_fun. rewrite <- tie_op_fun. apply c11_viol_pos. exact H. Qed.
+
+Theorem tie_c11_generated_viol_nonneg : forall op x y, (0 <= gen_op_fun op x y)%Q.
+Proof. intros op x y. unfold gen_op_fun. rewrite <- tie_op_fun. apply c11_viol_nonneg. Qed.
+
+Print Assumptions tie_c11_generated_viol_zero_iff.
+Print Assumptions tie_c11_generated_viol_pos.
+Print Assumptions tie_c11_generated_viol_nonneg.
